@@ -63,6 +63,43 @@ def edit(src, qual, how):
         body = lines[b0:b1]
         orelse = lines[e0:e1]
         lines[cand.lineno - 1:e1] = [new_head] + orelse + [ind + 'else:'] + body
+    elif how == 'guard':
+        # in a loop: trailing `if C: BODY` (no else) -> `if not (C): continue` + BODY dedented
+        cand = None
+        for x in ast.walk(node):
+            if isinstance(x, (ast.For, ast.While)) and x.body and isinstance(x.body[-1], ast.If) and not x.body[-1].orelse:
+                iff = x.body[-1]
+                if iff.test.lineno == iff.test.end_lineno == iff.lineno and iff.body[0].lineno > iff.lineno and not x.orelse:
+                    inner = False
+                    for f2 in ast.walk(node):
+                        if f2 is not node and isinstance(f2, (ast.FunctionDef, ast.AsyncFunctionDef, ast.Lambda)) and any(y is x for y in ast.walk(f2)):
+                            inner = True
+                    if not inner:
+                        cand = iff
+                        break
+        if cand is None:
+            return None
+        head = lines[cand.lineno - 1]
+        ind = head[:len(head) - len(head.lstrip())]
+        test_src = head.strip()
+        if not (test_src.startswith('if ') and test_src.endswith(':')):
+            return None
+        b0, b1 = cand.body[0].lineno - 1, cand.body[-1].end_lineno
+        body = lines[b0:b1]
+        first = body[0]
+        bind = first[:len(first) - len(first.lstrip())]
+        if not bind.startswith(ind) or len(bind) <= len(ind):
+            return None
+        cut = len(bind) - len(ind)
+        ded = []
+        for l in body:
+            if l.strip() == '':
+                ded.append(l)
+            elif l.startswith(' ' * cut) or l[:cut].strip() == '':
+                ded.append(l[cut:])
+            else:
+                return None      # continuation line indented less: leave it
+        lines[cand.lineno - 1:b1] = [ind + 'if not (%s):' % test_src[3:-1], ind + '    continue'] + ded
     elif how == 'tmpret':
         # `return EXPR` -> `_res = EXPR; return _res` for the LAST return of the function (single-line, own line)
         rets = [x for x in ast.walk(node) if isinstance(x, ast.Return) and x.value is not None and x.lineno == x.end_lineno
